@@ -205,36 +205,70 @@ def check_sizes(P, ctx):
           N.canon(ev['lhs'])[0] == 'idx' and N.canon(ev['lhs'])[1] == H]
     ok = ok and len(st) == 1 and N.canon(st[0]['lhs'])[2] == ('int', 0) and util.const_int(st[0]['rhs']) == 0
     ctx.check(ok, rule, 'String_Clear', site(fn), 'one byte is requested and the terminator is stored at index 0')
-    # --- String_Format_To (Linux branch): measured with a copy of the va_list; realloc(pos+size+1); written at pos
+    # --- String_Format_To (Linux branch), evaluated: measured on a copy of the va_list; at least pos+length+1 bytes requested; the buffer
+    # pointer updated; written at offset pos of the new buffer with the original format and list; the write's count returned
+    from . import cint
     fn = P.fn('String_Format_To')
-    g = P.cfg(fn)
     ctx.fn(fn)
-    N = util.Norm(P, fn, expand_locals=False)
-    meas = [(n, c) for n in g.live() if n['expr'] is not None for c in ir.calls(n['expr']) if ir.callee_name(c) == 'vsnprintf']
-    re = [(n, c) for n in g.live() if n['expr'] is not None for c in ir.calls(n['expr']) if ir.callee_name(c) == 'realloc']
-    wr = [(n, c) for n in g.live() if n['expr'] is not None for c in ir.calls(n['expr']) if ir.callee_name(c) == 'vsprintf']
-    cp = [(n, c) for n in g.live() if n['expr'] is not None for c in ir.calls(n['expr']) if ir.callee_name(c) in ('__builtin_va_copy', 'va_copy')]
-    ok = len(meas) == 1 and len(re) == 1 and len(wr) == 1 and len(cp) == 1
-    detail = []
-    if ok:
-        (mn, mc), (rn, rc), (wn, wc) = meas[0], re[0], wr[0]
-        size_local = ('local', mn['decl']['name']) if mn.get('decl') else None
-        margs = [N.canon(a) for a in mc[2]]
-        tmp = N.canon(cp[0][1][2][0])
-        ok = size_local is not None and ir.is_null(margs[0]) and margs[1] == ('int', 0) and margs[2] == ('param', 2) and margs[3] == tmp \
-            and N.canon(cp[0][1][2][1]) == ('param', 3)
-        req = poly.from_expr(N.canon(rc[2][1]))
-        need = poly.Poly.atom('arg1') + poly.Poly.atom(size_local[1] if size_local else '?') + poly.Poly.const(1)
-        wargs = [N.canon(a) for a in wc[2]]
-        at = poly.from_expr(wargs[0]) - poly.Poly.atom(ir.fmt(H))
-        ok = ok and req == need and at == poly.Poly.atom('arg1') and wargs[1] == ('param', 2) and wargs[2] == ('param', 3) and \
-            g.must_pass(wn['id'], [rn['id']]) and g.must_pass(rn['id'], [mn['id']]) and N.canon(rc[2][0]) == H
-        st = ir.top_nocast(rn['expr'])
-        ok = ok and st[0] == 'assign' and N.canon(st[2]) == H
-        detail = ['measured: %s' % ir.fmt(mc), 'requested: %r' % req, 'written at offset: %r' % at]
-    ctx.check(ok, rule, 'String_Format_To', site(fn),
-              'the formatted length is measured with vsnprintf(NULL,0) on a copy of the va_list, pos+length+1 bytes are requested, '
-              'and vsprintf writes at offset pos with the original format and list', detail)
+    bad, unsup = None, None
+    OLD, NEW, FMT, VA, VACOPY = 700000, 800000, 7200, 77, 78
+    for pos in (0, 3, 40):
+        for ln in (0, 5):
+            ev_ = []
+
+            def call(nm, e, it, ev_=ev_, ln=ln):
+                if nm in ('__builtin_va_copy', 'va_copy'):
+                    if it.ev(e[2][1]) != VA:
+                        raise cint.NoEval('va_copy of something else')
+                    it.store(e[2][0], VACOPY)
+                    return 0
+                if nm in ('__builtin_va_end', 'va_end'):
+                    return 0
+                if nm in ('vsnprintf', '_vscprintf'):
+                    a_ = [it.ev(x) for x in e[2]]
+                    ev_.append(('measure', a_))
+                    return ln
+                if nm == 'header':
+                    return ('ep', 'hdr', 0)
+                if nm == 'realloc':
+                    ev_.append(('realloc', it.ev(e[2][0]), it.ev(e[2][1])))
+                    return NEW
+                if nm == 'vsprintf':
+                    ev_.append(('write', [it.ev(x) for x in e[2]]))
+                    return ln
+                raise cint.NoEval('call %s' % nm)
+            atoms = {('global', 'NULL'): 0, ('elem', 'self', 0, 'val'): OLD, ('elem', 'hdr', 0, 'alloc'): P.enums.get('AllocHeap', 1)}
+            it = cint.CInt(P, fn, atoms=atoms, call=call)
+            it.atoms = atoms
+            r = it.run([('ep', 'self', 0), pos, FMT, VA])
+            label = 'position %d, formatted length %d' % (pos, ln)
+            if r[0] == 'stuck':
+                unsup = unsup or '%s: %s' % (label, r[1])
+                continue
+            meas = [x for x in ev_ if x[0] == 'measure']
+            rea = [x for x in ev_ if x[0] == 'realloc']
+            wri = [x for x in ev_ if x[0] == 'write']
+            msg = None
+            if len(meas) != 1 or meas[0][1][-2:] != [FMT, VACOPY] or (len(meas[0][1]) == 4 and meas[0][1][:2] != [0, 0]):
+                msg = 'the length is not measured once with (NULL, 0, fmt, a copy of the list): %s' % (meas,)
+            elif len(rea) != 1 or rea[0][1] != OLD or rea[0][2] < pos + ln + 1:
+                msg = 'requests %s bytes for the buffer; position + length + terminator is %d' % ([x[2] for x in rea], pos + ln + 1)
+            elif atoms.get(('elem', 'self', 0, 'val')) != NEW:
+                msg = 'the String does not take over the reallocated buffer'
+            elif len(wri) != 1 or wri[0][1] != [NEW + pos, FMT, VA]:
+                msg = 'writes with %s; expected (new buffer + %d, fmt, the original list)' % (wri, pos)
+            elif ev_.index(rea[0]) > ev_.index(wri[0]) or ev_.index(meas[0]) > ev_.index(rea[0]):
+                msg = 'order of measuring, reallocating and writing: %s' % [x[0] for x in ev_]
+            elif not (r[0] == 'ret' and r[1] == ln):
+                msg = 'returns %s, the write reported %d characters' % (r[1], ln)
+            if msg and bad is None:
+                bad = '%s: %s' % (label, msg)
+    if unsup and not bad:
+        ctx.undecided(rule, 'String_Format_To', site(fn), 'leaves the evaluated fragment: ' + unsup)
+    else:
+        ctx.check(bad is None, rule, 'String_Format_To', site(fn),
+                  'the formatted length is measured with vsnprintf(NULL,0) on a copy of the va_list, pos+length+1 bytes are requested, '
+                  'and vsprintf writes at offset pos with the original format and list', [bad] if bad else None)
     ctx.floor(rule, 5)
 
 
